@@ -73,19 +73,31 @@ def py_val(val, n):
   if t in ('nat', 'int'): return int(v)
   if t == 'num':
     x = C.pf(v)
-    return int(x) if py.get('as') == 'int' and x == int(x) else x
+    form = py.get('as')
+    if form in ('int', 'npint') and x == int(x): return int(x) if form == 'int' else N.int64(int(x))
+    if form == 'np0d': return N.array(x)
+    if form == 'npfloat': return N.float64(x)
+    return x
   if t == 'vec':
     l = [C.pf(x) for x in v]
-    return l if py.get('as') == 'list' else (tuple(l) if py.get('as') == 'tuple' else N.array(l))
-  if t == 'ivec': return N.array([float(int(x)) for x in v])
+    form = py.get('as')
+    if form == 'list': return l
+    if form == 'tuple': return tuple(l)
+    if form == 'intarray' and all(x == int(x) for x in l): return N.array([int(x) for x in l])
+    if form == 'intlist' and all(x == int(x) for x in l): return [int(x) for x in l]
+    return N.array(l)
+  if t == 'ivec': return N.array([int(x) for x in v]) if py.get('as') == 'intarray' else N.array([float(int(x)) for x in v])
   if t == 'mat': return [[C.pf(x) for x in row] for row in v]
-  if t == 'pairNum': return (C.pf(v[0]), C.pf(v[1])) if py.get('as') != 'list' else [C.pf(v[0]), C.pf(v[1])]
+  if t == 'pairNum':
+    a, b = C.pf(v[0]), C.pf(v[1])
+    if py.get('as') == 'int' and a == int(a) and b == int(b): a, b = int(a), int(b)
+    return [a, b] if py.get('as') == 'list' else (a, b)
   if t == 'pairVec': return (N.array([C.pf(x) for x in v[0]]), N.array([C.pf(x) for x in v[1]]))
   if t == 'table':
     a = N.array([[C.pf(r[0]), C.pf(r[1])] for r in v])
     return a.tolist() if py.get('as') == 'list' else a
-  if t == 'cbs': return [(C.pf(c[0]), C.pf(c[1]), int(c[2]), int(c[3])) for c in v]
-  if t == 'strs': return list(v)
+  if t == 'cbs': return [(list if py.get('as') == 'lists' else tuple)((C.pf(c[0]), C.pf(c[1]), int(c[2]), int(c[3]))) for c in v]
+  if t == 'strs': return tuple(v) if py.get('as') == 'tuple' else list(v)
   if t == 'clip':
     tup = tuple(None if x is None else C.pf(x) for x in v)
     return list(tup) if py.get('as') == 'list' else tup
@@ -290,6 +302,79 @@ def decimalise(rng, o):
   return o
 
 
+def edgeify(rng, o):
+  """parameter values AT and BEYOND the edges of the usual range (all still accepted by the validators), and empty
+  containers where an argument is usually absent or non-empty."""
+  cls = o['cls']
+  n = obj_len(o) if cls not in SET_CLASSES else None
+  have = dict(o['kw'])
+  pick = lambda: rng.random() < 0.5
+  out = []
+  for k, v in o['kw']:
+    t = v['t']; v = dict(v)
+    same = lambda x: [x for _ in v['v']] if t in ('vec', 'ivec') else x
+    if not pick():
+      out.append([k, v]); continue
+    if cls == 'CDevice' and k in ('a', 'b'): v['v'] = '0'
+    elif cls in ('CDevice2', 'IDevice2') and k == 'p_h' and t in ('num', 'vec'):
+      pl = have.get('p_l')
+      if pl is not None and pl['t'] == t and rng.random() < 0.5: v['v'] = json.loads(json.dumps(dict(out).get('p_l', pl)['v']))   # p_h == p_l (as already emitted)
+      else: v['v'] = same('0')
+    elif cls == 'IDevice' and k in ('a', 'c') and t in ('num', 'vec'): v['v'] = same('0')
+    elif cls == 'SDevice' and t == 'num':
+      if k in ('c2', 'c3'): v['v'] = '0'
+      elif k in ('start', 'reserve', 'damage_depth'): v['v'] = rng.choice(['0', '1'])
+      elif k in ('efficiency', 'sustainment'): v['v'] = '1'
+      elif k == 'rate_clip': v['v'] = '1'
+    elif cls == 'SDevice' and k == 'rate_clip' and t == 'clip': v['v'] = rng.choice([['1', None], [None, '1'], [None, None], ['1', '1']])
+    elif cls == 'TDevice' and k in ('sustainment', 't_range', 'c') and t in ('num', 'vec'):
+      v['v'] = same(rng.choice(['0', '1']) if k == 'sustainment' else '0')
+    elif cls == 'WindowDevice' and k == 'w': v['v'] = rng.choice(['0', str(n), str(2*n), fx(n + 0.5), fx(1.4*n)])
+    elif cls == 'WindowDevice' and k == 'c': v['v'] = rng.choice(['0', '-1', fx(-0.1)])
+    elif k == 'cbounds' and t == 'none' and rng.random() < 0.6: v = V('cbs', [])          # an EMPTY list instead of None
+    elif k in ('tags', 'labels') and t == 'strs': v['v'] = []
+    elif k == 'profile' and t == 'vec': v['v'] = []
+    elif k == 'note' and t == 'str': v['v'] = ''
+    elif k in ('weight', 'sign') and t == 'num': v['v'] = rng.choice(['0', '-1', fx(-1e-7)])
+    elif k == 'ratios' and t == 'vec': v['v'] = rng.choice([['0', '1'], ['-1', fx(0.5)], ['1', '1']])
+    out.append([k, v])
+  o['kw'] = out
+  return o
+
+
+def retype(rng, o):
+  """the same numbers in other Python clothes: int vs float, 0-d arrays and numpy scalars vs Python scalars, lists vs
+  tuples vs arrays (integer-typed arrays where the numbers are integral) — each must round-trip."""
+  cls = o['cls']
+  for k, v in o['kw']:
+    t = v['t']
+    if k in ('length', 'id') or (k == 'rate_clip' and t == 'num'):
+      if k == 'rate_clip': v['_py'] = {'as': 'int'}      # the setter indexes its argument: numpy scalars / 0-d arrays raise IndexError
+      continue
+    if t == 'num':
+      # (`sustainment` feeds an lru_cache'd helper: a 0-d array is unhashable there — a C10/C11 matter, not a round-trip one)
+      v['_py'] = {'as': rng.choice(['float', 'int', 'npfloat', 'npint'] + ([] if k == 'sustainment' else ['np0d']))}
+    elif t == 'vec':
+      forms = ['list', 'tuple', 'array', 'intarray', 'intlist']
+      if k == 'cost_coeffs': forms = ['list', 'tuple', 'array', 'intlist']
+      v['_py'] = {'as': rng.choice(forms)}
+    elif t == 'ivec': v['_py'] = {'as': rng.choice(['array', 'intarray'])}
+    elif t == 'pairNum': v['_py'] = {'as': rng.choice(['tuple', 'list', 'int'])}
+    elif t == 'cbs': v['_py'] = {'as': rng.choice(['tuples', 'lists'])}
+    elif t == 'table': v['_py'] = {'as': rng.choice(['array', 'list'])}
+    elif t == 'strs' and k != 'flows': v['_py'] = {'as': rng.choice(['list', 'tuple'])}
+    elif t == 'clip': v['_py'] = {'as': rng.choice(['tuple', 'list'])}
+  return o
+
+
+def vary(rng, o):
+  """decimal values, edge values and type forms, each applied to a share of the objects."""
+  if rng.random() < 0.75: decimalise(rng, o)
+  if rng.random() < 0.4: edgeify(rng, o)
+  if rng.random() < 0.5: retype(rng, o)
+  return o
+
+
 def mixed_id(rng, id, leaf):
   """ids are matched case-insensitively ((?i) in both id patterns), so mixed case is accepted and must come back."""
   r = rng.random()
@@ -341,7 +426,7 @@ def leaf_obj(rng, d, id=None, full=None, with_extras=True):
   elif cls == 'ADevice':
     if 'f' in p:
       prm.append(['f', V('fn', p['f'])])
-    if d.get('ucons'):
+    if d.get('ucons') is not None:       # [] (explicitly empty), one, or several; absent when the key is missing
       prm.append(['constraints', V('cons', d['ucons'])])
   if cls == 'TDevice':
     named = [['sustainment', V('num', p['sustainment'])], ['efficiency', V('num', p['efficiency'])], ['t_init', V('num', p['t_init'])],
@@ -358,12 +443,12 @@ def leaf_obj(rng, d, id=None, full=None, with_extras=True):
       parts.append(['c', V('num', p['c'])])
   kw += parts
   o = {'cls': cls, 'kw': kw}
-  return decimalise(rng, o) if rng.random() < 0.75 else o
+  return vary(rng, o)
 
 
 def gen_window(rng, tier, n=None):
   n = n or gen.pick_n(rng, tier, 6)
-  lb = [C.dy(rng, 0, 1) for _ in range(n)]
+  lb = [C.dy(rng, 0, 1) if rng.random() < 0.5 else Fraction(0) for _ in range(n)]
   hb = [a + Fraction(rng.randint(1, 8), 4) for a in lb]
   d = {'cls': 'WindowDevice', 'n': n, 'lb': fsl(lb), 'hb': fsl(hb), 'cbs': [], 'prm': {}, '_py': {'bform': rng.choice(['pair', 'table']) if n != 2 else 'table'}}
   if len(set(lb)) == 1 and len(set(hb)) == 1 and rng.random() < 0.5:
@@ -372,7 +457,7 @@ def gen_window(rng, tier, n=None):
     cbs, form = gen.gen_cbounds(rng, n, lb, hb)
     d['cbs'] = [[C.fs(c[0]), C.fs(c[1]), c[2], c[3]] for c in cbs]
     d['_py']['cform'] = form if len(cbs) == 1 and cbs[0][2] == 0 and cbs[0][3] == n else '4tuples'
-  d['prm']['w'] = C.fs(C.dy(rng, 0, n))
+  d['prm']['w'] = C.fs(C.dy(rng, 0, 2*n))      # the window may be wider than the horizon
   if rng.random() < 0.85:
     d['prm']['c'] = C.fs(C.dy(rng, 0, 3))
   return d
@@ -388,8 +473,12 @@ def gen_leaf_desc(rng, tier, cls, n=None):
     cbs, form = gen.gen_cbounds(rng, d['n'], lb, hb)
     d['cbs'] = [[C.fs(c[0]), C.fs(c[1]), c[2], c[3]] for c in cbs]
     d['_py']['cform'] = form if len(cbs) == 1 and cbs[0][2] == 0 and cbs[0][3] == d['n'] else '4tuples'
-  if cls == 'ADevice' and rng.random() < 0.7:
-    d['ucons'] = gen.gen_ucons(rng, d['n'], [Fraction(x) for x in d['lb']], [Fraction(x) for x in d['hb']])
+  if cls == 'ADevice':
+    lbf = [Fraction(x) for x in d['lb']]; hbf = [Fraction(x) for x in d['hb']]
+    r = rng.random()     # user constraints: absent / explicitly empty / one / several  (x cumulative bounds present or not)
+    if r < 0.3: d['ucons'] = []
+    elif r < 0.55: d['ucons'] = gen.gen_ucons(rng, d['n'], lbf, hbf)[:1]
+    elif r < 0.8: d['ucons'] = gen.gen_ucons(rng, d['n'], lbf, hbf) + gen.gen_ucons(rng, d['n'], lbf, hbf)
   return d
 
 
@@ -400,6 +489,17 @@ def leaf_probes(rng, d, k=2):
     if d['cls'] == 'WindowDevice' and sum(Fraction(x) for x in s) == 0:
       s = list(d['hb'])
     out.append({'s': s, 'p': gen.gen_price(rng, d['n'])})
+  if d['cls'] == 'WindowDevice':
+    # the centre of mass at either edge of the horizon, a little flow at the far end (where a wide window still bites)
+    n = d['n']
+    for first in (True, False):
+      s = list(d['lb'])
+      heavy = 0 if first else n - 1
+      s[heavy] = d['hb'][heavy]
+      far = n - 1 - heavy
+      if far != heavy:
+        s[far] = C.fs((Fraction(d['lb'][far]) + Fraction(d['hb'][far]))/2)
+      out.append({'s': s, 'p': gen.gen_price(rng, n)})
   return out
 
 
@@ -415,7 +515,7 @@ def tree_obj(rng, t):
       if t.get('ctype') and (t['ctype'] != 'eq' or rng.random() < 0.5):
         kw.append(['constraint_type', V('str', t['ctype'])])
       o = {'cls': 'TwoRatioMFDeviceSet', 'kw': kw}
-      return decimalise(rng, o) if rng.random() < 0.75 else o
+      return vary(rng, o)
     return {'cls': 'MFDeviceSet', 'kw': kw}
   kids = [tree_obj(rng, c) for c in t['ch']]
   kw = [['id', V('str', mixed_id(rng, t['id'], False))], ['devices', V('objs', kids)]]
@@ -430,9 +530,9 @@ def tree_obj(rng, t):
       opt = [x for x in opt if rng.random() < 0.8]
     kw += opt
     o = {'cls': 'SubBalancedDeviceSet', 'kw': kw}
-    return decimalise(rng, o) if rng.random() < 0.75 else o
+    return vary(rng, o)
   o = {'cls': 'DeviceSet', 'kw': kw}
-  return decimalise(rng, o) if rng.random() < 0.75 else o
+  return vary(rng, o)
 
 
 def set_case(rng, tier, cls):
@@ -534,7 +634,8 @@ def expected_dump(cls, k, val, n, supplied):
     if t == 'pairVec': return True, N.array([[C.pf(a), C.pf(b)] for a, b in zip(v[0], v[1])])
     return True, N.array([[C.pf(r[0]), C.pf(r[1])] for r in v])
   if k == 'cbounds':
-    if t == 'none': return (False, None) if cls == 'CDevice2' else (True, None)
+    if cls == 'CDevice2' and (t == 'none' or (t == 'cbs' and not v)): return False, None     # falsy -> the class defaults it
+    if t == 'none': return True, None
     if t == 'pairNum': return True, [(C.pf(v[0]), C.pf(v[1]), 0, n)]
     return True, supplied
   if k == 'rate_clip':
@@ -699,7 +800,15 @@ class C16(Prop):
          ['cbounds', V('pairNum', ['1', '3'])], ['constraints', V('cons', ucons)]]}, 'probes': [{'s': ['1', '1/2'], 'p': '1/4'}]}
     b = {'kind': 'leaf', 'n': 2, 'obj': {'cls': 'CDevice', 'kw': [['id', V('str', 'c')], ['length', V('nat', 2)], ['bounds', V('pairNum', ['0', '2'])],
          ['params', V('dict', [['a', V('num', '-1')]])]]}, 'probes': [{'s': ['1', '1/2'], 'p': '1/4'}]}
-    return [w, t, a, b]
+    # a window WIDER than the horizon, probed with the mass at an edge (the cost is built from the raw width: seeded C16-C);
+    # cumulative bounds with an explicitly EMPTY user constraint list (seeded C16-F)
+    w2 = {'kind': 'leaf', 'n': 10, 'obj': {'cls': 'WindowDevice', 'kw': [['id', V('str', 'win')], ['length', V('nat', 10)], ['bounds', V('pairNum', ['0', '2'])],
+          ['w', V('num', '14')], ['c', V('num', '5/2')]]},
+          'probes': [{'s': ['2', '2', '0', '0', '0', '0', '0', '0', '0', '1'], 'p': '1/4'}, {'s': ['1', '0', '0', '0', '0', '0', '0', '0', '2', '2'], 'p': '0'}]}
+    a0 = {'kind': 'leaf', 'n': 6, 'obj': {'cls': 'ADevice', 'kw': [['id', V('str', 'a')], ['length', V('nat', 6)], ['bounds', V('pairNum', ['0', '2'])],
+          ['cbounds', V('cbs', [['1', '4', 0, 3], ['1', '5', 3, 6]])], ['f', V('fn', {'k': 'null'})], ['constraints', V('cons', [])]]},
+          'probes': [{'s': ['1', '1/2', '1', '1', '1', '1'], 'p': '1/4'}]}
+    return [w, t, a, b, w2, a0]
 
   def nontrivial(self, case):
     o = case['obj']
@@ -738,7 +847,8 @@ class C16(Prop):
       return out
     have = dict(o['kw'])
     # exact, except where the class COMPUTES the stored number (CDevice2 sums the bounds for its defaulted cbounds)
-    vtol = 1e-12 if o['cls'] == 'CDevice2' and have.get('cbounds', {'t': 'none'})['t'] == 'none' else 0
+    cbv = have.get('cbounds', {'t': 'none'})
+    vtol = 1e-12 if o['cls'] == 'CDevice2' and (cbv['t'] == 'none' or (cbv['t'] == 'cbs' and not cbv['v'])) else 0
     return [
       Op({'op': 'serial.values', 'cls': o['cls'], 'kw': lean_kw(o)}, impl_values, vtol, 'dumped VALUES vs the model\'s toDict'),
       Op({'op': 'serial.tablekeys', 'cls': o['cls'], 'extra': extra, 'universe': universe}, lambda: vec(obj.to_dict().keys()), 0, 'to_dict keys vs generated table'),
@@ -823,7 +933,8 @@ class C16(Prop):
         continue
       ok, want = expected_dump(cls, k, val, n_self, supplied[k])
       if ok and not same_value(want, d[k]):
-        fails.append(F('dumped-value', 'to_dict()[%r] is %r, but %r was supplied' % (k, d[k], want), param=k))
+        brief = lambda x: ('%d constraint dict(s)' % len(x)) if k == 'constraints' and isinstance(x, (list, tuple)) else repr(x)
+        fails.append(F('dumped-value', 'to_dict()[%r] is %s, but %s was supplied' % (k, brief(d[k]), brief(want)), param=k))
     # children BY VALUE (same class, same dumped settings, recursively); their behaviour is compared through the set's
     # cost / deriv / constraints below. (Today the twin holds the very same child objects: see the module doc-string.)
     for k in ('devices', 'device'):
